@@ -123,6 +123,20 @@ def run(ctx):
                     else:
                         ctx.fail("C14-R2", PF, "b_k update", "element-wise update %s over skip(%s), expected (1+beta)*b_k over skip(2)" % (pol, show(sk[2][1])), cm.loc_of(st["span"]))
                     continue
+            # element-wise form over a suffix slice: for b in coefficients[2..].iter_mut() { *b = f(*b) }
+            if tgt[0] == "field" and tgt[2] == "0" and tgt[1][0] == "variant" and tgt[1][1][0] == "call" and "IterMut" in tgt[1][1][1] and tgt[1][1][1].endswith("::next"):
+                sl = tgt[1][1][2][0]
+                if sl[0] == "idx" and "mc2b(self)" in show(sl[1]) and sl[2][0] == "agg" and sl[2][1].endswith("RangeFrom::RangeFrom"):
+                    pol = to_poly(val, lambda e, tgt=tgt: ("OLD",) if e == tgt else None)
+                    coeff_stores.append((bb, ("skip",)))
+                    seen["_bk_bb"] = bb
+                    st0 = sl[2][2][0]
+                    if st0[0] == "c" and st0[1] == 2 and pol == Poly.atom(("OLD",)) * (Poly.const(1) + beta):
+                        seen["bk"] = True
+                        ctx.ok("C14-R2", "b_k <- (1+beta)*b_k for every element after the first two (coefficients[2..].iter_mut())", cm.loc_of(st["span"]))
+                    else:
+                        ctx.fail("C14-R2", PF, "b_k update", "element-wise update %s over [%s..], expected (1+beta)*b_k over [2..]" % (pol, show(st0)), cm.loc_of(st["span"]))
+                    continue
             if not (root[0] in ("var", "call") and chain == ["[]"]):
                 continue
             idx = tgt[2]
@@ -275,6 +289,28 @@ def run(ctx):
         reb = ExprBuilder(rb)
         good_last = good_rec = False
         for bb, i, st, tgt, root, chain, val in stores(rb, reb):
+            # out.iter_mut().zip(self.windows(2)): element i of the output with the pair (in[i], in[i+1])
+            if key == "b2mc" and tgt[0] == "field" and tgt[2] == "0" and tgt[1][0] == "field" and tgt[1][2] == "0" and tgt[1][1][0] == "variant" \
+                    and tgt[1][1][1][0] == "call" and "Zip" in tgt[1][1][1][1] and tgt[1][1][1][1].endswith("::next"):
+                item = tgt[1]
+                z = tgt[1][1][1][2][0]
+                if z[0] == "call" and z[1].endswith("Iterator::zip") and len(z[2]) == 2:
+                    a0, a1 = z[2]
+                    while a0[0] == "call" and len(a0[2]) == 1 and a0[1].rsplit("::", 1)[-1] in ("iter_mut", "into_iter", "deref_mut"):
+                        a0 = a0[2][0]
+                    okw = a1[0] == "call" and a1[1].endswith("<impl [T]>::windows") and len(a1[2]) == 2 and show(a1[2][0]) == "self" and a1[2][1][0] == "c" and a1[2][1][1] == 2 \
+                        and a0[0] == "call" and a0[1].rsplit("::", 1)[-1] == "to_cep"
+
+                    def at2(e, item=item):
+                        if e[0] == "idx" and e[1] == ("field", item, "1") and e[2][0] == "c":
+                            return ("SELF", int(e[2][1]))
+                        if e[0] == "arg" and e[2] == "alpha":
+                            return ("ALPHA",)
+                        return None
+                    pol2 = to_poly(val, at2)
+                    if okw and pol2 == Poly.atom(("SELF", 0)) + Poly.atom(("ALPHA",)) * Poly.atom(("SELF", 1)):
+                        good_rec = True
+                continue
             if chain != ["[]"]:
                 continue
             idx = tgt[2]
